@@ -462,6 +462,16 @@ def _inclusive_by_flag(ctx, out, rule, incl_fields):
                     kinds.add("incl")
                 elif any("end" in lab[2] and any(str(x).endswith("position_range") for x in lab[2]) for lab in labs):
                     kinds.add("excl")
+                else:
+                    # a conversion (`From<&Range<Position>>` / `From<&RangeInclusive<Position>>`): the kind of
+                    # range is the parameter's type
+                    for lab in labs:
+                        if lab[0] == "param" and lab[2][:1] == ("end",) and 1 <= lab[1] <= b.argc:
+                            pty = b.local_ty(lab[1])
+                            if "RangeInclusive<blockwatch::Position>" in pty:
+                                kinds.add("incl")
+                            elif "Range<blockwatch::Position>" in pty:
+                                kinds.add("excl")
             if len(consts) == 1 and len(kinds) == 1:
                 (fname, val), = consts.items()
                 flag_of.setdefault((rv["path"], fname), {})[val] = kinds.pop()
@@ -505,6 +515,63 @@ def _inclusive_by_flag(ctx, out, rule, incl_fields):
                                  "with `%s` = %s the span's end is %s, but a change is compared against the end column with `%s`" % (
                                      fname, str(flagv).lower(), "INCLUSIVE (built from an inclusive range's end)" if want_incl else "HALF-OPEN", {"Lt": "<", "Le": "<=", "Gt": ">", "Ge": ">="}[op]))
                     break
+        # (3) the flag turned into a variant of a crate enum (`if flag { Bound::Closed(c) } else { Bound::Open(c) }`):
+        # the comparisons against the payload in that variant's arm follow the flag's polarity
+        variant_pol = {}    # (enum path, variant index) -> 'incl' | 'excl'
+        for b in ctx.reachable_bodies():
+            if b.promoted is not None:
+                continue
+            for bi, j, s in b.assigns():
+                rv = s["rv"]
+                if rv["k"] != "agg" or rv.get("agg") != "adt" or not (rv.get("path") or "").startswith("blockwatch::") or not rv.get("ops"):
+                    continue
+                ad = ctx.facts.adts.get(rv["path"]) or {}
+                vs = [v.get("name") for v in ad.get("variants", [])]
+                if ad.get("kind") not in (None, "enum") or len(vs) < 2 or rv.get("variant") not in vs:
+                    continue
+                flagv = None
+                for br, vals, e in util.guards(ctx, b, bi):
+                    txt = render(e, 300)
+                    if txt.endswith("." + fname) or ("." + fname) in txt:
+                        flagv = (0 not in vals)
+                if flagv is None:
+                    continue
+                variant_pol[(rv["path"], vs.index(rv["variant"]))] = pol[flagv]
+        if len({k[0] for k in variant_pol}) == 1 and set(variant_pol.values()) == {"incl", "excl"}:
+            enum = next(iter(variant_pol))[0]
+            for b in ctx.reachable_bodies():
+                if b.promoted is not None:
+                    continue
+                eparams = [i for i in range(1, b.argc + 1) if re.match(r"&?(mut )?%s$" % re.escape(enum), b.local_ty(i))]
+                if not eparams:
+                    continue
+                for bi, j, s in b.assigns():
+                    rv = s["rv"]
+                    if rv["k"] != "bin" or rv["op"] not in ("Lt", "Le", "Gt", "Ge"):
+                        continue
+                    for side in ("a", "b"):
+                        labs = ctx.prov.read_operand(b, rv[side])
+                        if not any(lab[0] == "param" and lab[1] in eparams for lab in labs):
+                            continue
+                        vi = None
+                        for br, vals, e in util.guards(ctx, b, bi):
+                            txt = render(e, 300)
+                            if txt.startswith("discr(") and len(vals) == 1 and "otherwise" not in vals:
+                                vi = next(iter(vals))
+                        if (enum, vi) not in variant_pol:
+                            continue
+                        op = rv["op"]
+                        if side == "a":
+                            op = {"Lt": "Gt", "Gt": "Lt", "Le": "Ge", "Ge": "Le"}[op]
+                        want_incl = variant_pol[(enum, vi)] == "incl"
+                        good = op in (("Le", "Gt") if want_incl else ("Lt", "Ge"))
+                        if good:
+                            n += 1
+                        else:
+                            out.viol(rule, "%s|%s|%s" % (rule, enum, "inclusive" if want_incl else "exclusive"), ctx.where(b, s["span"]),
+                                     "the `%s` variant of `%s` is built where `%s` says the span's end is %s, but its arm compares a change against the bound with `%s`" % (
+                                         (ctx.facts.adts[enum]["variants"][vi].get("name")), enum.split("::")[-1], fname, "INCLUSIVE" if want_incl else "HALF-OPEN", {"Lt": "<", "Le": "<=", "Gt": ">", "Ge": ">="}[op]))
+                        break
     return n
 
 
